@@ -83,6 +83,10 @@ class C13(Machine):
                 pb.step(c0, k="mutate", obj=keybuf, val=B(k), tag="keybuf", role="mut")
                 pb.step(c0, k="call", obj=mac, name="setkey", args=[{"obj": keybuf}], kw={}, tag="setkey:" + cls, kcls=cls,
                         role="setkey", key_hex=k.hex())
+                if rng.random() < 0.6:
+                    # ... and wipes or re-uses the buffer once the key has been handed over
+                    scr = bytes(len(k)) if rng.random() < 0.5 else rbytes(rng, rng.choice([len(k), len(k), bb, 3]))
+                    pb.step(c0, k="mutate", obj=keybuf, val=B(scr), tag="keybuf_wiped", role="mut")
             else:
                 pb.step(c0, k="call", obj=mac, name="setkey", args=[B(k)], kw={}, tag="setkey:" + cls, kcls=cls, role="setkey")
             last = k
@@ -155,6 +159,9 @@ class C13(Machine):
                         break
                     curk[mo] = {"b": s["key_hex"]}
                     probes["setkey_through_reused_bytearray"] = probes.get("setkey_through_reused_bytearray", 0) + 1
+                    nxt = plan["steps"][plan["steps"].index(s) + 1:]
+                    if nxt and nxt[0].get("tag") == "keybuf_wiped":
+                        probes["callers_key_buffer_wiped_after_setkey"] = probes.get("callers_key_buffer_wiped_after_setkey", 0) + 1
                 else:
                     curk[mo] = s["args"][0]
                 repl[mo] += 1
